@@ -338,7 +338,7 @@ func NewShortestPathSearchFromPoint(from b6.FeatureID, weights Weights, w b6.Wor
 	rs := w.FindReferences(from)
 	for rs.Next() {
 		f := w.FindFeatureByID(rs.FeatureID())
-		if p, ok := f.(b6.PhysicalFeature); ok && weights.IsUseable(b6.Segment{Feature: p}) {
+		if p, ok := f.(b6.PhysicalFeature); ok && isUseableInOwnDirection(p, weights) {
 			connected = true
 			break
 		}
@@ -354,6 +354,17 @@ func NewShortestPathSearchFromPoint(from b6.FeatureID, weights Weights, w b6.Wor
 		s.FillOriginsFromBuildings(buildings, weights, w)
 	}
 	return s
+}
+
+// isUseableInOwnDirection returns whether weights can use f at all. Paths are
+// probed along their own direction, as isConnected does: weights that respect
+// direction (oneway, GTFS) reject a segment with First == Last, which made
+// points that only lie on one-way paths unusable as origins.
+func isUseableInOwnDirection(f b6.PhysicalFeature, weights Weights) bool {
+	if f.GeometryType() == b6.GeometryTypePath {
+		return weights.IsUseable(b6.ToSegment(f))
+	}
+	return weights.IsUseable(b6.Segment{Feature: f})
 }
 
 func isConnected(p b6.FeatureID, weights Weights, w b6.World) bool {
